@@ -5,14 +5,16 @@
   (`DelayedFormat::write_to` …).  Specification: Spec/StrftimeSpec.lean (`renderNumeric`,
   `renderFixed`, `renderOffset`: the documentation table over the independent calendar of
   Spec/Calendar.lean; numerals are core's `Nat.toDigits 10`).  Lemmas: Proofs/FormatL.lean,
-  Proofs/FormatFin.lean.  A date is `dateOfYo y o` (the `o`-th day of year `y`) as in C01, a time any
+  Proofs/FormatFin.lean, Proofs/FormatIsoL.lean (ISO week), Proofs/StrftimeL.lean (iterator progress).
+  Not proved here, only compared and oracle-checked on the implementation: `%+`/RFC 3339 and RFC 2822
+  text (see props/C12.json).  A date is `dateOfYo y o` (the `o`-th day of year `y`) as in C01, a time any
   `TValid` value (leap-second representation allowed on any second), an offset any `|off| < 86400`.
 
   `wok text` = the text was written; `werr` = `Err(fmt::Error)`.
 -/
 import Chrono.Proofs.FormatL
 import Chrono.Proofs.StrftimeL
-import Chrono.Proofs.IsoL
+import Chrono.Proofs.FormatIsoL
 import Chrono.Extracted.SpecTable
 
 namespace Chrono.Props.C12
@@ -81,7 +83,7 @@ year and the week number of the Thursday of the date's Monday-based week; never 
 theorem iso_week_spec (y : Int) (o : Nat) (hy : MIN_YEAR ≤ y ∧ y ≤ MAX_YEAR) (ho : 1 ≤ o ∧ o ≤ yearLen y) :
     ∃ ywf, (dateOfYo y o).iso_week = .ok ywf ∧ IsoWeek.year ywf = isoYear y o ∧
       IsoWeek.week ywf = isoWeek y o :=
-  IsoL.iso_week_spec y o hy ho
+  FormatIsoL.iso_week_spec y o hy ho
 
 /-- `%G %g %V` (and the ISO century item): `%g` for ISO years ≥ 0 -/
 theorem numeric_ok_iso (y : Int) (o : Nat) (hy : MIN_YEAR ≤ y ∧ y ≤ MAX_YEAR) (ho : 1 ≤ o ∧ o ≤ yearLen y)
@@ -89,7 +91,7 @@ theorem numeric_ok_iso (y : Int) (o : Nat) (hy : MIN_YEAR ≤ y ∧ y ≤ MAX_YE
     (hn : n ∈ [Numeric.isoYear, .isoYearDiv100, .isoYearMod100, .isoWeek])
     (_hy0 : n = .isoYearMod100 → 0 ≤ isoYear y o) :
     format_numeric (some (dateOfYo y o)) t off n pad = wok (renderNumeric n pad y o tt oo) :=
-  IsoL.numeric_iso y o hy ho t off tt oo pad n hn
+  FormatIsoL.numeric_iso y o hy ho t off tt oo pad n hn
 
 /-- `%H %k %I %l %M %S %f`: 12-hour clock 12,1,…,11; second 60 for a leap second; nanoseconds since
 the last whole second -/
@@ -123,10 +125,10 @@ theorem numeric_ok (y : Int) (o : Nat) (hy : MIN_YEAR ≤ y ∧ y ≤ MAX_YEAR) 
   case nanosecond => exact FormatL.numeric_clock t ht _ off y o _ pad _ (by decide)
   case weekFromSun => exact FormatL.numeric_weeks y o hy ho _ off t _ pad _ (by decide)
   case weekFromMon => exact FormatL.numeric_weeks y o hy ho _ off t _ pad _ (by decide)
-  case isoYear => exact IsoL.numeric_iso y o hy ho _ off t _ pad _ (by decide)
-  case isoYearDiv100 => exact IsoL.numeric_iso y o hy ho _ off t _ pad _ (by decide)
-  case isoYearMod100 => exact IsoL.numeric_iso y o hy ho _ off t _ pad _ (by decide)
-  case isoWeek => exact IsoL.numeric_iso y o hy ho _ off t _ pad _ (by decide)
+  case isoYear => exact FormatIsoL.numeric_iso y o hy ho _ off t _ pad _ (by decide)
+  case isoYearDiv100 => exact FormatIsoL.numeric_iso y o hy ho _ off t _ pad _ (by decide)
+  case isoYearMod100 => exact FormatIsoL.numeric_iso y o hy ho _ off t _ pad _ (by decide)
+  case isoWeek => exact FormatIsoL.numeric_iso y o hy ho _ off t _ pad _ (by decide)
   all_goals exact FormatL.numeric_calendar y o hy ho _ off t _ pad _ (by decide)
 
 /-! ### fixed specifiers -/
